@@ -576,13 +576,17 @@ Definition table_rows : list (nat * bool * nat * bool * bool) * list nat :=
 (* ---- finding C05-F6 (the part of C05-F5 that /repo 38e261f does not cover): a tour is emptied BY A STATE HANDLER during
    accept_solution_state (route_intervals.rs remove_trivial_markers takes the last activity - an obsolete reload marker - out of a tour
    and pushes it to `ignored`; the changed pending list restarts the round): the restarted round computes the aggregates while that
-   tour, now without jobs, is still in the solution; restore drops it afterwards.  `edit` = what the abandoned round did to the tours *)
-Definition restore_with_restart (edit : list (rctx ftour fval) -> list (rctx ftour fval)) (es : list (entry ftour fact fval sval))
-           (s : sctx ftour fval sval) : sctx ftour fval sval :=
+   tour, now without jobs, is still in the solution; restore drops it afterwards.  `edit` = what the abandoned round did to the tours.
+   `again` = the code since /repo 70e48c1 (the repair of C05-F6): when the final
+   remove_empty_routes removed a tour, accept_solution_state runs once more; `again = false` = the code before (regression mutant C05-19) *)
+Definition restore_with_restart (again : bool) (edit : list (rctx ftour fval) -> list (rctx ftour fval))
+           (es : list (entry ftour fact fval sval)) (s : sctx ftour fval sval) : sctx ftour fval sval :=
   let s0 := mkS (drop_empty ftour fval no_jobs (s_routes s)) (s_aggs s) in
   let s1 := run_sol ftour fact fval sval es s0 in                                   (* the abandoned round *)
   let s2 := accept_solution_state_d ftour fact fval sval es (mkS (edit (s_routes s1)) (s_aggs s1)) in   (* the round that completes *)
-  mkS (drop_empty ftour fval no_jobs (s_routes s2)) (s_aggs s2).
+  let s3 := mkS (drop_empty ftour fval no_jobs (s_routes s2)) (s_aggs s2) in
+  if again && negb (Nat.eqb (length (s_routes s3)) (length (s_routes s2)))
+  then accept_solution_state_d ftour fact fval sval es s3 else s3.
 Definition wmarker : fact := mkFA (mkAct 100 0 0 0 INF dzero 0 0) true false None false 0 0.
 (* a tour whose only job is a reload marker *)
 Definition wtourm : ftour := mkFT wveh [wact (-1) 0 0; wmarker; wact (-1) 0 0].
